@@ -419,21 +419,29 @@ impl VxStr for str {
     #[verifier::external_body] fn vx_parse_f64(&self) -> (r: Result<f64, core::num::ParseFloatError>) { self.parse::<f64>() }
 }
 
-/// `[T]::contains(&x)` for slices of string literals (code tables)
+/// `[T]::contains(&x)` / `join` for tables of string literals (code tables)
+pub open spec fn lits_contain(v: Seq<&'static str>, x: Seq<char>) -> bool { exists|k: int| 0 <= k < v.len() && (#[trigger] v[k])@ == x }
 pub trait VxSliceStr {
-    spec fn elems(&self) -> Seq<Seq<char>>;
-    fn vx_contains(&self, x: &&str) -> (r: bool) ensures r == self.elems().contains(x@);
+    spec fn lits(&self) -> Seq<&'static str>;
+    fn vx_contains(&self, x: &&str) -> (r: bool) ensures r == lits_contain(self.lits(), x@);
+    fn vx_join(&self, sep: &str) -> (r: String);
 }
-impl<'a> VxSliceStr for Vec<&'a str> {
-    open spec fn elems(&self) -> Seq<Seq<char>> { self@.map_values(|e: &str| e@) }
+impl VxSliceStr for Vec<&'static str> {
+    open spec fn lits(&self) -> Seq<&'static str> { self@ }
     #[verifier::external_body] fn vx_contains(&self, x: &&str) -> (r: bool) { self.contains(x) }
-}
-impl<'a> VxSliceStr for [&'a str] {
-    open spec fn elems(&self) -> Seq<Seq<char>> { self@.map_values(|e: &str| e@) }
-    #[verifier::external_body] fn vx_contains(&self, x: &&str) -> (r: bool) { self.contains(x) }
+    #[verifier::external_body] fn vx_join(&self, sep: &str) -> (r: String) { self.join(sep) }
 }
 
-// ---------------------------------------------------------------- Vec iteration idioms
+// ---------------------------------------------------------------- Vec idioms
+pub trait VxVec<T> {
+    spec fn vv(&self) -> Seq<T>;
+    fn vx_extend(&mut self, other: Vec<T>) ensures final(self).vv() == old(self).vv() + other@;
+}
+impl<T> VxVec<T> for Vec<T> {
+    open spec fn vv(&self) -> Seq<T> { self@ }
+    #[verifier::external_body] fn vx_extend(&mut self, other: Vec<T>) { self.extend(other) }
+}
+
 #[verifier::external_body]
 pub fn vec_any<T, F: Fn(&T) -> bool>(v: &Vec<T>, f: F) -> (r: bool)
     requires forall|i: int| 0 <= i < v@.len() ==> call_requires(f, (&#[trigger] v@[i],))
